@@ -39,7 +39,8 @@ def make_case(rng):
     f = f / f[-1] * fs * float(rng.uniform(0.3, 0.8))
     _, e = gs.density_1d(rng, f, (), str(rng.choice(["smooth", "multi", "zeros"])))
     c = {"kind": kind, "fs": fs, "L": L, "fkind": fk, "freq": f, "e": e,
-         "seed": int(rng.integers(0, 2 ** 32)), "seed2": int(rng.integers(0, 2 ** 32)),
+         "seed": int(rng.choice([0, 1, 2 ** 32 - 1, int(rng.integers(0, 2 ** 32))], p=[0.15, 0.05, 0.05, 0.75])),
+         "seed2": int(rng.integers(0, 2 ** 32)),
          "scale": float(rng.uniform(0.2, 6.0))}
     if kind == "2d":
         nd = int(rng.choice([8, 12, 24, 36]))
